@@ -13,12 +13,15 @@
    Fail selects one injected failure: <<"stage", i, k>> (stage i raises while computing its k-th chunk),
    <<"saver", i, k>>, <<"close", i, 0>> (saver i fails while closing), <<"consumer", 0, k>> / <<"stop", 0, k>>
    (the consumer raises / closes the iterator after k chunks: either way the generator of get_iter is closed
-   and context.get_iter throws OutsideException into the processor) or <<"none", 0, 0>>.
+   and context.get_iter throws OutsideException into the processor), <<"pause", 0, k>> (the consumer holds the iterator after
+   k chunks and never pulls again: property C13) or <<"none", 0, 0>>.
    Reasons: "orig" = the injected exception, "stop" = OutsideException.                               *)
 EXTENDS Naturals, Sequences, FiniteSets, TLC
 
 CONSTANTS NS, NChunks, Saved,
           CapSet, LazySet, FailSet,    \* the run's parameters (cap, lazy, fail) are chosen once in Init and never change
+          Backpressure, \* TRUE: a sender waits while its mailbox is full (as the code does); FALSE only to show that the C13 bounds
+                        \* below depend on it (vacuity guard)
           MainKills     \* TRUE: the main thread kills every mailbox when it has an exception (as the code does); FALSE only to show
                         \* that the properties below depend on it (vacuity guard)
 
@@ -43,7 +46,7 @@ Min(T) == CHOOSE x \in T : \A y \in T : x <= y
 Total(m) == sent[m] + (IF ended[m] THEN 1 ELSE 0)
 MinRead(m) == Min({rd[m][r] : r \in Readers(m)})
 Held(m) == Total(m) - MinRead(m)                          \* len(_mailbox): messages not yet grabbed by every subscriber
-CanWrite(m) == Held(m) < Cap \/ killed[m]
+CanWrite(m) == Held(m) < Cap \/ killed[m] \/ ~Backpressure
 Available(m, r) == rd[m][r] < Total(m)
 \* Mailbox._can_fetch: nobody is still waiting for a message that is already there, and a driving subscriber waits
 CanFetch(m) == killed[m] \/ (/\ ~\E r \in Readers(m) : waiting[m][r] /\ Available(m, r)
@@ -159,6 +162,7 @@ MainConsume ==
         \* -> kill_from_exception on the target mailbox, re-raised into ThreadedMailboxProcessor.iter
         LET k == KillOf(NS, "stop", killed, force, reason) IN
         killed' = k[1] /\ force' = k[2] /\ reason' = k[3] /\ exc' = "stop" /\ mpc' = "killall" /\ toKill' = Stages
+     ELSE IF Fail = <<"pause", 0, mk>> THEN mpc' = "paused" /\ UNCHANGED <<killed, force, reason, exc, toKill>>      \* never pulls again
      ELSE mpc' = "read" /\ UNCHANGED <<killed, force, reason, exc, toKill>>
   /\ UNCHANGED <<sent, ended, rd, lb, waiting, spc, sk, vpc, vk, gotExc, mk, outcome>>
 MainKill(m) ==      \* for m in mailboxes.values(): m.kill(upstream=True, reason)   (in dict order; any order here)
@@ -180,12 +184,20 @@ Spec == Init /\ [][Next]_vars /\ WF_vars(Next)
 
 (* ---------------------------------- P-level (C06) ---------------------------------- *)
 Finished == mpc = "end"
-NoDeadlock == Finished \/ ENABLED Next
+Paused == mpc = "paused"
+NoDeadlock == Finished \/ Paused \/ ENABLED Next
 EveryoneStops == Finished => AllThreadsDone
 CallerOutcome == Finished =>
    CASE Fail[1] = "none" -> outcome = "returned" /\ mk = NChunks
      [] Fail[1] \in {"stop", "consumer"} -> outcome = "stop"     \* the pipeline side; the consumer's own exception is its own business
+     [] Fail[1] = "pause" -> TRUE
      [] OTHER -> outcome = "orig"                   \* the original exception, never "returned", never another reason
 EagerCap == \A m \in Stages : Held(m) <= Cap
-Terminates == <>Finished
+Terminates == <>(Finished \/ Paused)
+(* ---------------------------------- P-level (C13) ---------------------------------- *)
+\* when the consumer stops pulling after k chunks the source produces at most k + Bound further chunks, Bound depending only on
+\* the graph and the capacity (every mailbox: cap buffered + cap in the reader's hands + one in the sender's), not on NChunks
+PauseBound == Fail[1] = "pause" => sk[1] <= Fail[3] + NS * (2 * Cap + 2)
+\* lazy mode: a stage passes its gate only while a driving reader of its mailbox waits for a message that is not there (or after a kill)
+LazyDemand == [][\A i \in Stages : (Lazy /\ spc[i] = "gate" /\ spc'[i] = "fetch") => CanFetch(i)]_vars
 =============================================================================
